@@ -1,6 +1,7 @@
 package main
 
 import (
+	"go/constant"
 	"go/token"
 	"go/types"
 	"sort"
@@ -471,5 +472,111 @@ func init() {
 	reg.Meta.Rules["C14.8"] = "a cached capacity follows the node size: if a field of WritableBTreeV2 is computed from the value stored into another field (e.g. a leaf capacity from nodeSize), every function that stores the source field also refreshes the derived one (LoadFromFile adopts the node size of the file)"
 	reg.Rules = append(reg.Rules, func(c *Ctx, r *Result) {
 		c.derivedFieldsFollow(r, "C14.8", "structures.WritableBTreeV2")
+	})
+}
+
+// dirtyFlagRule: if a write-back method of the type returns success early when a bool field of the receiver is unset ("nothing
+// changed"), every method of the type that stores to the type's content sets that field.
+func (c *Ctx) dirtyFlagRule(r *Result, rule, typeKey string, isContent func(key string) bool) int {
+	n := 0
+	for _, wn := range []string{typeKey + ".WriteAt", typeKey + ".WriteToFile"} {
+		w := c.FnOpt(wn)
+		if w == nil || w.Blocks == nil {
+			continue
+		}
+		for _, b := range w.Blocks {
+			ifi, ok := b.Instrs[len(b.Instrs)-1].(*ssa.If)
+			if !ok {
+				continue
+			}
+			cond := ifi.Cond
+			neg := false
+			if u, isU := cond.(*ssa.UnOp); isU && u.Op == token.NOT {
+				cond, neg = u.X, true
+			}
+			key, _ := fieldLoadKey(cond)
+			if !strings.HasPrefix(key, typeKey+".") {
+				continue
+			}
+			if bt, isB := cond.Type().Underlying().(*types.Basic); !isB || bt.Kind() != types.Bool {
+				continue
+			}
+			// the branch taken when the flag is false returns success without writing
+			skip := b.Succs[1]
+			if neg {
+				skip = b.Succs[0]
+			}
+			ret, isRet := skip.Instrs[len(skip.Instrs)-1].(*ssa.Return)
+			if !isRet || !isSuccessReturn(ret) {
+				continue
+			}
+			// every content-changing method of the type sets the flag
+			for _, m := range c.LibFuncs() {
+				if !strings.HasPrefix(c.Name(m), typeKey+".") || m == w || m.Parent() != nil {
+					continue
+				}
+				changes, sets := false, false
+				for _, fs := range c.DirectFieldStores(m) {
+					if fs.Fn != m {
+						continue
+					}
+					if fs.Key == key {
+						if k, isK := fs.Val.(*ssa.Const); !isK || constant.BoolVal(k.Value) {
+							sets = true
+						}
+						continue
+					}
+					if isContent(fs.Key) {
+						changes = true
+					}
+				}
+				if !changes || strings.HasSuffix(c.Name(m), ".LoadFromFile") || strings.HasSuffix(c.Name(m), ".WriteToFile") || strings.HasSuffix(c.Name(m), ".WriteAt") {
+					continue
+				}
+				if !sets {
+					// an internal step whose every caller within the type sets the flag is covered by them
+					callers := staticCallersOf(c, c.Name(m))
+					covered := len(callers) > 0
+					for _, cn := range callers {
+						cf := c.FnOpt(cn)
+						callerSets := false
+						if cf != nil && strings.HasPrefix(cn, typeKey+".") {
+							for _, fs := range c.DirectFieldStores(cf) {
+								if fs.Fn == cf && fs.Key == key {
+									callerSets = true
+								}
+							}
+						}
+						if !callerSets {
+							covered = false
+						}
+					}
+					if covered {
+						continue
+					}
+				}
+				n++
+				r.Check(sets, rule, c.Name(m)+"#sets-"+lastSeg(key), c.Pos(m.Pos()), wn+" skips the write-back while "+lastSeg(key)+" is unset; this method changes the content and must set it")
+			}
+		}
+	}
+	return n
+}
+
+func init() {
+	reg := registry["C14"]
+	reg.Meta.Rules["C14.9"] = "a skipped write-back is justified: if WriteAt/WriteToFile of the B-tree returns early on an unset 'modified'-style flag, every method that changes records, leaf or header sets that flag"
+	reg.Rules = append(reg.Rules, func(c *Ctx, r *Result) {
+		if c.dirtyFlagRule(r, "C14.9", "structures.WritableBTreeV2", contentField) == 0 {
+			r.Hold("C14.9", "structures.WritableBTreeV2#no-conditional-write-back", "", "the write-back of the B-tree is not conditional on a flag")
+		}
+	})
+	reg2 := registry["C02"]
+	reg2.Meta.Rules["C02.9"] = "the name index and the heap reach the file whenever they changed: a write-back that is skipped on an unset flag requires every content-changing method of that structure to set the flag (shared with C14.9)"
+	reg2.Rules = append(reg2.Rules, func(c *Ctx, r *Result) {
+		n := c.dirtyFlagRule(r, "C02.9", "structures.WritableBTreeV2", contentField) + c.dirtyFlagRule(r, "C02.9", "structures.WritableFractalHeap", contentField)
+		if n == 0 {
+			r.Hold("C02.9", "structures#no-conditional-write-back", "", "the write-back of the dense structures is not conditional on a flag")
+		}
 	})
 }
